@@ -93,7 +93,8 @@ func TestC14X(t *testing.T) {
 		}
 	}
 	phase2All := envInt("VERIF_ALLMASKS", 0) == 1 || envInt("VERIF_SEARCH", 0) == 1
-	sample := envInt("VERIF_AMOUNT_SAMPLE", 1) // run every sample-th boundary amount in phase 1 (all of them in phase 2)
+	sample := envInt("VERIF_AMOUNT_SAMPLE", 1)   // phase 1: run every sample-th boundary amount
+	sample2 := envInt("VERIF_AMOUNT_SAMPLE2", 1) // phase 2 (every control state x every price subset): every sample2-th boundary amount
 	x := c12xSetup(t, a, base)
 	for _, n := range x.Notes {
 		tr.p("# fixture-note %s", strings.ReplaceAll(n, "\n", " "))
@@ -190,6 +191,9 @@ func TestC14X(t *testing.T) {
 				}
 				if only < 0 && phase == 1 && vr.field != nil && sample > 1 && (vi+int(seed()))%sample != 0 {
 					continue // quick tier: a seed-chosen part of the boundary amounts
+				}
+				if only < 0 && phase == 2 && vr.field != nil && len(focus) == 0 && sample2 > 1 && (vi+int(seed()))%sample2 != 0 {
+					continue
 				}
 				_, _, reads := c14TracedRun(a, x.c12xBranch(proto), w, build())
 				bctx := x.c12xBranch(proto)
